@@ -27,12 +27,12 @@ def sh(cmd, cwd=None, timeout=1800, env=None):
 
 def collect():
     wave3 = {"C01", "C02", "C03", "C04", "C05", "C06", "C08", "C09", "C11", "C17"}    # properties that had a third wave
-    for wave, pat in ((0, "/tmp/mut-c*/out/M*"), (2, "/tmp/mut3-c*/out/M*"), (4, "/tmp/mut4-c*/out/M*")):
+    for wave, pat in ((0, "/tmp/mut-c*/out/M*"), (2, "/tmp/mut3-c*/out/M*"), (4, "/tmp/mut4-c*/out/M*"), (6, "/tmp/mut5-c*/out/M*")):
         for d in sorted(glob.glob(pat)):
             if not os.path.exists(os.path.join(d, "patch.diff")) or not os.path.exists(os.path.join(d, "meta.json")):
                 continue
             prop = d.split("/")[2].split("-")[1].upper()
-            m = int(os.path.basename(d)[1:]) + (wave if wave < 4 or prop in wave3 else 2)
+            m = int(os.path.basename(d)[1:]) + (wave if wave < 4 or prop in wave3 else wave - 2)
             sid = "%s-M%d" % (prop, m)
             dst = os.path.join(OUT, sid)
             os.makedirs(dst, exist_ok=True)
